@@ -146,10 +146,95 @@ def _r12_explicit_transactions_closed(ctx, M):
                   % (o.stmt["text"][:40], len(leak), len(closers)))
 
 
+WEAKENING_PRAGMAS = {
+    # name -> values under which an acknowledged write survives a kill and an interrupted one is undone
+    "journal_mode": {"delete", "truncate", "persist", "wal"},
+    "synchronous": {"full", "extra", "2", "3"},
+    "fullfsync": {"on", "true", "1", "yes", "off", "false", "0", "no"},
+    "checkpoint_fullfsync": {"on", "true", "1", "yes", "off", "false", "0", "no"},
+    "writable_schema": {"off", "false", "0", "no"},
+    "ignore_check_constraints": {"off", "false", "0", "no"},
+    "locking_mode": {"normal", "exclusive"},
+}
+
+
+def _pragma_verdict(strings):
+    """None when the string literals of a function that sets pragmas are harmless, else (name, value)"""
+    low = [x.strip().lower() for x in strings]
+    for name, safe in WEAKENING_PRAGMAS.items():
+        if name in low:
+            others = [x for x in low if x != name and x not in WEAKENING_PRAGMAS and len(x) <= 12]
+            badv = [x for x in others if x not in safe and (x in ("memory", "off", "normal", "none") or x.isdigit() or x in ("false", "no"))]
+            if badv or not others:
+                return (name, badv[0] if badv else "?")
+    return None
+
+
+def _r14_no_weakening_pragma(ctx):
+    """R14 the lease file keeps SQLite's crash behaviour: a rollback journal on disk and synchronous commits. A PRAGMA set through the
+    connection's API (pragma_update*, which the SQL-text rule R6 never sees) that moves the journal to memory, turns it off or relaxes
+    `synchronous` makes a kill during a write leave a file that is malformed or holds half a transaction."""
+    P = ctx.P
+    assert _pragma_verdict(["journal_mode", "MEMORY"]) and _pragma_verdict(["synchronous", "OFF", "temp_store"]) and \
+        not _pragma_verdict(["temp_store", "MEMORY"]) and not _pragma_verdict(["journal_mode", "WAL"]), "pragma matcher self-test"
+    n = 0
+    for b in P.bodies.values():
+        if not b.id.startswith("erbium::") or "::test" in b.id:
+            continue
+        sites = [(bb, tm) for bb, tm in b.calls() if (callee_name(tm) or "").startswith("rusqlite::") and
+                 (callee_name(tm) or "").rsplit("::", 1)[-1] in ("pragma_update", "pragma_update_and_check", "pragma")]
+        if not sites:
+            continue
+        fam = P.family(b.id.split("::{")[0]) if b.id.split("::{")[0] in P.bodies else [b]
+        strings = []
+        for x in fam:
+            for _, k, _ in body_consts(x):
+                if isinstance(k, dict) and k.get("str") is not None:
+                    strings.append(k["str"])
+        v = _pragma_verdict(strings)
+        for bb, tm in sites:
+            n += 1
+            ctx.saw(b)
+            ctx.check(v is None, "R14", "pragma-keeps-the-journal-and-sync:%s" % b.id.split("::{")[0].rsplit("::", 1)[-1], ctx.where(b, tm["sp"]),
+                      "this function sets PRAGMA %s to %s on the lease connection" % (v or ("-", "-")))
+    ctx.ok("R14", "pragma-api-calls-examined:%d" % n, "", "matcher self-test passed")
+
+
+def _r13_opening_decodes_no_row(ctx, M, cg):
+    """R13 whether the database opens depends on its schema version and on the upgrade steps, never on what the rows hold: no statement
+    that a constructor can reach hands lease columns to Rust code (a probe like SELECT 1 is fine). Rows written by an older version —
+    a lease recorded by hardware address only, a time outside today's range — are kept and left alone; a strict row decoder on the
+    way to Ok(pool) turns one such row into a server that does not start."""
+    P = ctx.P
+    roots = [f for f in P.bodies if f.split("::{")[0].rsplit("::", 2)[-2:] in (["Pool", "new"], ["Pool", "new_with_conn"], ["Pool", "new_in_memory"], ["Pool", "setup_db"])
+             and "dhcp::pool" in f]
+    ctx.floor("R13", "pool constructors", len(roots), 3)
+    reach = cg.reachable(roots)
+    n = 0
+    for s in M.lease_sql():
+        if s.stmt["kind"] != "select" or s.body.id.split("::{")[0] not in reach and s.body.id not in reach:
+            continue
+        n += 1
+        ctx.saw(s.body)
+        cols = sorted({y[1] for it, _ in s.stmt["items"] for y in _sql_subterms(it) if y[0] == "col"})
+        ctx.check(not cols, "R13", "opening-decodes-no-lease-row:%s" % s.body.id.split("::{")[0].rsplit("::", 1)[-1], ctx.where(s.body, s.term["sp"]),
+                  "reachable from a Pool constructor, reads columns %s of every lease: a row it cannot decode keeps the database from opening" % cols)
+    ctx.floor("R13", "lease reads on the way to an open pool", n, 1)
+
+
+def _sql_subterms(t):
+    if isinstance(t, tuple):
+        yield t
+        for x in t:
+            yield from _sql_subterms(x)
+
+
 def run(ctx):
     P = ctx.P
     cg = callgraph(P)
     M = PoolModel(P, cg)
+    _r13_opening_decodes_no_row(ctx, M, cg)
+    _r14_no_weakening_pragma(ctx)
     _r10_migrated_columns(ctx, M)
     _r11_commit_is_checked(ctx, M)
     _r12_explicit_transactions_closed(ctx, M)
